@@ -12,13 +12,13 @@ import (
 func init() {
 	register(&mc.Prop{
 		ID: "C03",
-		Rule: "S = every ordered tuple of n<=3 (thorough 4) fields drawn from one representative per skip-relevant encoding (varint, fixed32, fixed64, string, nested struct, packed slice, counted slice of strings / structs, map, time, pointer, slice of packed slices), followed by a sentinel field with the highest index, also nested one level (S as a field and as a slice element of an outer struct); " +
+		Rule: "S = every ordered tuple of n<=3 (thorough 4) fields drawn from one representative per skip-relevant encoding (varint, fixed32, fixed64, string, nested struct, packed slice, counted slice of strings / structs, map, time, pointer, slice of packed slices), followed by a sentinel field with the highest index, also nested one level (S as a field, as a slice element, as a map value under two keys and behind an already populated pointer of an outer struct; the last two with removals only); " +
 			"S' = every subset of removals x every permutation of the remaining declarations with fresh names x optionally one added fresh-index field of each representative kind; values = full product of {zero, nz1, nz2} per field; the target S' is pre-populated with sentinel values. " +
 			"Oracle: no error; shared indexes receive what decoding into S gives (reference expectation); removed fields are skipped exactly (the sentinel field after them is intact); fields absent from the data and added fields keep their pre-populated value. non-trivial = pair where at least one non-zero field of S is removed in S'",
 		Assumptions: []string{"field kinds are representatives of wire classes, not every leaf"},
 		Work:        c03Work,
 		Post: func(a *mc.Agg) []string {
-			return needDims(a, "removed:1", "removed:2", "reordered", "added", "nest:top", "nest:field", "nest:elem")
+			return needDims(a, "removed:1", "removed:2", "reordered", "added", "nest:top", "nest:field", "nest:elem", "nest:mapval", "nest:ptr")
 		},
 	})
 }
@@ -73,8 +73,9 @@ func c03Work(c *mc.Ctx) {
 			return
 		}
 		for k := range kinds {
-			// quick tier: beyond two fields only non-decreasing kind sequences (orderings are produced by the permutations of S')
-			if len(tuple) >= 2 && c.Tier != "thorough" && k < tuple[len(tuple)-1] {
+			// beyond two fields only non-decreasing kind sequences: every ordered pair of kinds is adjacent on
+			// the wire in the first two positions, further orderings are produced by the permutations of S'
+			if len(tuple) >= 2 && k < tuple[len(tuple)-1] {
 				continue
 			}
 			tuple = append(tuple, k)
@@ -113,6 +114,7 @@ func c03Tuple(c *mc.Ctx, kinds []c03Kind, tuple []int) {
 	type variant struct {
 		keep  []int // positions of S kept, in declaration order of S'
 		added int   // kind index of an added field, -1 none
+		basic bool  // declaration order kept, nothing added (the only variants run for the map-value and pointer nestings)
 	}
 	var variants []variant
 	for mask := 0; mask < 1<<n; mask++ {
@@ -122,8 +124,10 @@ func c03Tuple(c *mc.Ctx, kinds []c03Kind, tuple []int) {
 				kept = append(kept, i)
 			}
 		}
+		first := true
 		permuteInts(kept, func(pm []int) {
-			variants = append(variants, variant{append([]int(nil), pm...), -1})
+			variants = append(variants, variant{append([]int(nil), pm...), -1, first})
+			first = false
 		})
 		// additions with the kept fields in reverse order (one ordering is enough for additions)
 		rev := append([]int(nil), kept...)
@@ -131,7 +135,7 @@ func c03Tuple(c *mc.Ctx, kinds []c03Kind, tuple []int) {
 			rev[i], rev[j] = rev[j], rev[i]
 		}
 		for ak := range kinds {
-			variants = append(variants, variant{rev, ak})
+			variants = append(variants, variant{rev, ak, false})
 		}
 	}
 	// values of S: full product over {zero,nz1,nz2}
@@ -158,7 +162,7 @@ func c03Tuple(c *mc.Ctx, kinds []c03Kind, tuple []int) {
 		}
 	}
 	recv(0)
-	for _, nest := range []string{"top", "field", "elem"} {
+	for _, nest := range []string{"top", "field", "elem", "mapval", "ptr"} {
 		for _, v := range vals {
 			// encode with the real encoder (C02 binds it to the reference); nest as requested
 			var data []byte
@@ -174,12 +178,21 @@ func c03Tuple(c *mc.Ctx, kinds []c03Kind, tuple []int) {
 			case "elem":
 				outerT = ref.Struct(ref.F{Name: "In", Index: 3, T: ref.Slice(S)}, ref.F{Name: "After", Index: 4, T: ref.Leaf(ref.KInt)})
 				data, err = p.Marshal(nil, ref.ToReflect(outerT, ref.V{E: []ref.V{{E: []ref.V{v, v}}, {U: 5}}}).Addr().Interface())
+			case "mapval":
+				outerT = ref.Struct(ref.F{Name: "In", Index: 3, T: ref.Map(ref.Leaf(ref.KString), S)}, ref.F{Name: "After", Index: 4, T: ref.Leaf(ref.KInt)})
+				data, err = p.Marshal(nil, ref.ToReflect(outerT, ref.V{E: []ref.V{{E: []ref.V{{S: "k"}, v, {S: ""}, v}}, {U: 5}}}).Addr().Interface())
+			case "ptr":
+				outerT = ref.Struct(ref.F{Name: "In", Index: 3, T: ref.Ptr(S)}, ref.F{Name: "After", Index: 4, T: ref.Leaf(ref.KInt)})
+				data, err = p.Marshal(nil, ref.ToReflect(outerT, ref.V{E: []ref.V{{E: []ref.V{v}}, {U: 5}}}).Addr().Interface())
 			}
 			if err != nil {
 				c.Violation("marshal-error|"+strings.Join(names, ","), err.Error())
 				return
 			}
 			for _, vr := range variants {
+				if (nest == "mapval" || nest == "ptr") && !vr.basic {
+					continue
+				}
 				c03Pair(c, p, kinds, tuple, names, S, v, data, nest, vr.keep, vr.added)
 			}
 		}
@@ -311,6 +324,43 @@ func c03Pair(c *mc.Ctx, p interface {
 				if v.E[n].S == "" {
 					want.E[len(want.E)-1] = ref.V{S: ""}
 				}
+			}
+		case "mapval":
+			o := ref.Struct(ref.F{Name: "In", Index: 3, T: ref.Map(ref.Leaf(ref.KString), S2)}, ref.F{Name: "After", Index: 4, T: ref.Leaf(ref.KInt)})
+			target = reflect.New(o.Reflect())
+			err = p.Unmarshal(data, target.Interface())
+			ov := ref.FromReflect(o, target.Elem())
+			if err == nil && (len(ov.E[0].E) != 4 || ov.E[1].U != 5) {
+				c.Violation(sig+"map-of-evolved-structs-desynchronised", desc())
+				return
+			}
+			if err == nil {
+				// fresh map values: absent fields are zero, not the sentinel; both entries must agree
+				for i, k := range keep {
+					want.E[i] = ref.Merge(ref.Cfg{}, kinds[tuple[k]].t, "", ref.Zero(kinds[tuple[k]].t), v.E[k], false)[0]
+				}
+				if v.E[n].S == "" {
+					want.E[len(want.E)-1] = ref.V{S: ""}
+				}
+				gotV = ov.E[0].E[1]
+				if path, detail, differ := ref.Diff(S2, want, ov.E[0].E[3]); differ {
+					c.Violation(sig+"mismatch:"+path, desc()+": second entry: "+detail)
+					return
+				}
+			}
+		case "ptr":
+			// the target already points at a populated struct: absent fields keep their prior value behind the pointer
+			o := ref.Struct(ref.F{Name: "In", Index: 3, T: ref.Ptr(S2)}, ref.F{Name: "After", Index: 4, T: ref.Leaf(ref.KInt)})
+			target = reflect.New(o.Reflect())
+			target.Elem().Set(ref.ToReflect(o, ref.V{E: []ref.V{{E: []ref.V{pre}}, {U: 1}}}))
+			err = p.Unmarshal(data, target.Interface())
+			ov := ref.FromReflect(o, target.Elem())
+			if err == nil && (ov.E[0].Nil || len(ov.E[0].E) != 1 || ov.E[1].U != 5) {
+				c.Violation(sig+"field-after-pointed-to-struct-desynchronised", desc())
+				return
+			}
+			if err == nil {
+				gotV = ov.E[0].E[0]
 			}
 		}
 		if err != nil {
